@@ -1075,6 +1075,11 @@ class Evaluator:
         return const(bool(r))
       except Exception:
         pass
+    if len(ops) == 1 and ops[0] in ('==', '!=') and self.opt.fold_consts:
+      # literal sequences of the same kind (e.g. two rows of a literal tableau)
+      la, lb = _literal_seq(operands[0]), _literal_seq(operands[1])
+      if la is not None and lb is not None and operands[0].k == operands[1].k:
+        return const((la == lb) if ops[0] == '==' else (la != lb))
     if len(ops) == 1 and ops[0] in ('is', 'is not') and operands[1].k == 'const' and operands[1].a[0] is None:
       o = operands[0]
       if o.k in ('obj', 'tuple', 'list', 'dict', 'func', 'lambda', 'class', 'partial', 'bound', 'store') or (o.k == 'const'):
@@ -1866,6 +1871,24 @@ _BUILTINS = {
     'frozenset', 'bytes', 'complex', 'id', 'issubclass', 'property', 'staticmethod', 'classmethod',
     'Ellipsis', 'NotImplemented', 'IndexError', 'StopIteration', 'vars', 'dir', 'open', 'format',
 }
+
+
+def _literal_seq(t):
+  """Python value of a list / tuple term made of numeric literals (nested allowed), else None."""
+  if t.k not in ('list', 'tuple'):
+    return None
+  out = []
+  for x in t.a:
+    if x.k == 'const' and isinstance(x.a[0], (int, float, Fraction)) and not isinstance(x.a[0], bool):
+      out.append(Fraction(x.a[0]) if not isinstance(x.a[0], float) or x.a[0] == x.a[0] else x.a[0])
+    elif x.k in ('list', 'tuple'):
+      sub = _literal_seq(x)
+      if sub is None:
+        return None
+      out.append(sub)
+    else:
+      return None
+  return out
 
 
 def is_abstract(f: FuncInfo):
